@@ -9,7 +9,10 @@ from pyvc.driver import run, pmap
 from bounded import gen
 
 REMARKS = ["remark text", "10 remark text", "remark 10 permit ip any any", "remark remark remark", "remark = H1, name", "remark  two   spaces", "remark deny",
-           "4294967295 remark x", "remark ~!@#$%^&*()_+{}|:<>?"]
+           "4294967295 remark x", "remark ~!@#$%^&*()_+{}|:<>?",
+           # texts around and beyond 100 characters, with blanks at every position class (a blank at index 99, 100, 101 of the text)
+           "remark " + "a" * 99 + " tail", "remark " + "a" * 100 + " tail", "remark " + "a" * 98 + " b tail", "remark " + "word " * 30 + "end", "20 remark " + "xy " * 40 + "z",
+           "remark " + "a" * 100, "remark " + "a" * 150]
 STANDARD = ["permit host 10.0.0.1", "permit 10.0.0.0 0.0.0.255", "deny any", "10 permit 10.0.0.1", "permit any log", "permit 10.0.0.0 0.0.0.255 log"]
 
 
